@@ -7,7 +7,7 @@ counter-model is replayed against the real code of /repo by simply calling the u
 from __future__ import annotations
 import copy
 
-__all__ = ["unit", "native", "sym_int", "sym_bool", "sym_fixed", "sym_map", "assume", "check", "reach", "note",
+__all__ = ["unit", "native", "sym_int", "sym_bool", "sym_fixed", "sym_map", "sym_list", "assume", "check", "reach", "note",
            "implies", "ite", "all_of", "split", "stub", "unstub", "snapshot", "same", "check_same"]
 
 UNITS = {}
@@ -69,6 +69,13 @@ def sym_bool(name):
 def sym_fixed(name, ft):
     INPUTS[name] = ("int", ft.minval, ft.maxval)
     return ft(int(MODEL.get(name, 0)))
+
+
+def sym_list(name, n, ft):
+    INPUTS[name] = ("list", n, ft.minval, ft.maxval)
+    tbl = MODEL.get(name)
+    vals = tbl[0] if isinstance(tbl, tuple) else (tbl or {})
+    return [ft(int(vals.get(j, 0))) for j in range(n)]
 
 
 class _LazyMap(dict):
